@@ -1,4 +1,5 @@
 import Crng.Gen.CodeTableOps
+import Crng.Gen.CodeRouteOps
 import Crng.CodeSpec
 /-! Obligations of the regenerated *code* layer, table/table.go mutators (value level; the slice-header level — that no
 published snapshot is written to — is `Crng.Props.C18` / `Crng.GoSlice`): adding appends at the end and changes nothing
@@ -121,5 +122,29 @@ theorem delRoute_eq (t : Table) (key : Bytes) :
                 omega
     simp only [Res.bind, Res.pure, hne, Bool.false_eq_true, if_false, List.nil_append]
     cases hs : p.2.Shutdown.2 <;> simp [Lib.notNil, hs]
+
+/-! ### route level: adding and deleting destinations (`baseRoute.addDestination` / `delDestination`; the config extender —
+identity for carbon routes, "rebuild the hash ring" for consistent hashing — is a parameter) -/
+/-- **addDestination (regenerated)**: the destination is started and appended; filter and the other destinations unchanged -/
+theorem addDestination_eq (r : baseRoute) (d : DestI) (ext : Matcher × List DestI → BaseConfig) :
+    r.addDestination d ext = ([Ev.call "dest.Run" d.id []], { r with config := ext (r.config.Matcher, r.config.Dests ++ [d]) }) := rfl
+
+/-- **delDestination (regenerated)**: an index at or beyond the end is an error and leaves the route unchanged; otherwise that
+destination — and only it — is shut down and removed -/
+theorem delDestination_eq (r : baseRoute) (i : Nat) (ext : Matcher × List DestI → BaseConfig) :
+    r.delDestination i ext =
+      if h : i ≥ r.config.Dests.length then ([], (some "Invalid index %d" : Err), r)
+      else ((r.config.Dests[i]'(by omega)).Shutdown.1, none, { r with config := ext (r.config.Matcher, r.config.Dests.eraseIdx i) }) := by
+  unfold baseRoute.delDestination
+  simp only [Lib.len, cut_eq_eraseIdx]
+  by_cases h : i ≥ r.config.Dests.length
+  · have : (i : Int) ≥ (r.config.Dests.length : Int) := by omega
+    simp [h, this, Res.pure]
+  · have h' : ¬ (i : Int) ≥ (r.config.Dests.length : Int) := by omega
+    have hi : i < r.config.Dests.length := by omega
+    have hidx : Lib.idx r.config.Dests (i : Int) = r.config.Dests[i] := by
+      unfold Lib.idx
+      rw [if_neg (by omega), Int.toNat_natCast, List.getD_eq_getElem?_getD, List.getElem?_eq_getElem hi, Option.getD_some]
+    simp [h, h', hidx, Res.bind, Res.pure]
 
 end Crng.Tie.CodeTableOps
